@@ -17,6 +17,9 @@ Proof.
   apply frameU_bind; [apply frame0_tick|intros _; apply frame0_drop_elems].
 Qed.
 
+Lemma frame0_take_order_or m : frame0 (take_order_or m).
+Proof. intros s. unfold take_order_or, wp, bind, get, ret. cbn. reflexivity. Qed.
+
 (* RawTable::clone: same buckets, same growth_left, same contents *)
 Lemma hb_clone_spec t (Q : hb -> st -> Prop) (U : panic -> st -> Prop) s :
   hb_ok ES t ->
@@ -31,6 +34,7 @@ Proof.
     assert (Hem : hel t = ∅) by (apply map_size_empty_inv; lia).
     apply HQ; [reflexivity|apply hb_ok_new|cbn; congruence|cbn; congruence|cbn; congruence].
   - apply wp_bind. apply frame0_use; [apply frame0_tick|]. intros [] s1 Hs1.
+    apply wp_bind. apply frame0_use; [apply (frame0_take_order_or (hel t))|]. intros l0 s1' Hs1'.
     apply wp_bind. apply wp_on_unwind. eapply frameU_use; [apply frame_clone_elems| |].
     + intros l' s2 Hs2. apply wp_ret. apply HQ; [congruence|exact Hok|reflexivity|reflexivity|reflexivity].
     + intros p s2 Hs2 ->. apply frame0_use; [apply frame0_tick|]. intros [] s3 Hs3. apply HU. congruence.
@@ -48,13 +52,30 @@ Proof.
   - apply wp_ret. apply HQ; [reflexivity|exact Hok| |intros _; cbn; lia].
     change (list_to_emap []) with (∅ : gmap N elem). rewrite (right_id_L ∅ (∪)). reflexivity.
   - cbn [map] in Hnd. apply NoDup_cons in Hnd as [Hne Hnd].
-    apply wp_bind. apply frame_use; [apply frame_tick_hash| |]; [|intros s1 Hs1; apply HU; auto].
-    intros [] s1 Hs1. apply wp_bind. apply frame_use; [apply frame_cb| |]; [|intros s2 Hs2; apply HU; [congruence|auto]].
-    intros [] s2 Hs2. apply wp_bind. apply wp_on_unwind. eapply frameU_use; [apply frame_cb| |].
-    2:{ intros p s3 Hs3 ->. apply frame0_use; [apply frame0_tick|]. intros [] s4 Hs4. apply HU; [congruence|auto]. }
-    intros [] s3 Hs3. apply wp_bind.
-    apply hb_insert_spec; [exact Hok|apply Hdis; left| |].
-    + intros t1 s4 Hs4 Hok1 Hel1 Hn1 Hcase.
+    set (body := tick_hash ;;; cb ;;; on_unwind cb (drop_key (ekid e)) ;;; hb_insert c t e).
+    assert (Hbody : wp body
+              (fun t1 s4 => s_rt s4 = s_rt s /\ hb_ok ES t1 /\ hel t1 = <[ek e := e]> (hel t) /\
+                            (0 < hgl t -> hB t1 = hB t /\ hgl t1 <= hgl t /\ hgl t <= hgl t1 + 1))
+              (fun p s' => s_rt s' = s_rt s /\ (p = PUser \/ p = PCapOverflow)) s).
+    { unfold body.
+      apply wp_bind. apply frame_use; [apply frame_tick_hash| |]; [|intros s1 Hs1; auto].
+      intros [] s1 Hs1. apply wp_bind. apply frame_use; [apply frame_cb| |]; [|intros s2 Hs2; split; [congruence|auto]].
+      intros [] s2 Hs2. apply wp_bind. apply wp_on_unwind. eapply frameU_use; [apply frame_cb| |].
+      2:{ intros p s3 Hs3 ->. apply frame0_use; [apply frame0_tick|]. intros [] s4 Hs4. split; [congruence|auto]. }
+      intros [] s3 Hs3.
+      apply hb_insert_spec; [exact Hok|apply Hdis; left| |].
+      + intros t1 s4 Hs4 Hok1 Hel1 Hn1 Hcase. split; [congruence|]. auto.
+      + intros p s4 Hs4 Hp. split; [congruence|exact Hp]. }
+    apply wp_bind.
+    assert (Hstep : wp (on_unwind body (drop_elems (map_to_list (hel t)).*2 ;;; hb_free t))
+              (fun t1 s4 => s_rt s4 = s_rt s /\ hb_ok ES t1 /\ hel t1 = <[ek e := e]> (hel t) /\
+                            (0 < hgl t -> hB t1 = hB t /\ hgl t1 <= hgl t /\ hgl t <= hgl t1 + 1))
+              (fun p s' => s_rt s' = s_rt s /\ (p = PUser \/ p = PCapOverflow)) s).
+    { apply wp_on_unwind. eapply wp_conseq; [exact Hbody|auto|].
+      intros p s1 [Hs1 Hp]. apply wp_bind. apply frame0_use; [apply frame0_drop_elems|]. intros [] s2 Hs2.
+      apply frame0_use; [apply frame0_hb_free|]. intros [] s3 Hs3. split; [congruence|exact Hp]. }
+    eapply wp_conseq; [exact Hstep| |].
+    + intros t1 s4 (Hs4 & Hok1 & Hel1 & Hcase).
       apply IH; [exact Hok1|exact Hnd| | |].
       * intros x Hx. rewrite Hel1. rewrite lookup_insert_ne; [apply Hdis; right; exact Hx|].
         intros Heq. apply Hne. rewrite Heq. apply elem_of_list_fmap. exists x. auto.
@@ -64,7 +85,39 @@ Proof.
         -- intros Hfit. cbn [length] in Hfit. destruct (Hcase ltac:(lia)) as (HB1 & Hle1 & Hge1).
            destruct (Hroom ltac:(lia)) as [HB' Hge']. split; [congruence|]. cbn [length]. lia.
       * intros p s5 Hs5 Hp. apply HU; [congruence|exact Hp].
-    + intros p s4 Hs4 Hp. apply HU; [congruence|exact Hp].
+    + intros p s4 [Hs4 Hp]. apply HU; [congruence|exact Hp].
+Qed.
+
+(* the in-place variant (clone_from): the destination's main table takes the elements one by
+   one; the old table slot is not touched *)
+Lemma and_carry_here_spec : forall l (Q : unit -> st -> Prop) (U : panic -> st -> Prop) s,
+  hb_ok ES (main (s_rt s)) -> NoDup (map ek l) -> (forall e, e ∈ l -> hel (main (s_rt s)) !! ek e = None) ->
+  (forall s', lo (s_rt s') = lo (s_rt s) -> hb_ok ES (main (s_rt s')) ->
+              hel (main (s_rt s')) = hel (main (s_rt s)) ∪ list_to_emap l -> Q tt s') ->
+  (forall p s', lo (s_rt s') = lo (s_rt s) -> hb_ok ES (main (s_rt s')) -> p = PUser \/ p = PCapOverflow -> U p s') ->
+  wp (and_carry_here c l) Q U s.
+Proof.
+  induction l as [|e l IH]; intros Q U s Hok Hnd Hdis HQ HU; cbn [and_carry_here].
+  - apply wp_ret. apply HQ; [reflexivity|exact Hok|].
+    change (list_to_emap []) with (∅ : gmap N elem). rewrite (right_id_L ∅ (∪)). reflexivity.
+  - cbn [map] in Hnd. apply NoDup_cons in Hnd as [Hne Hnd]. apply wp_bind. unfold getm. apply wp_gets. set (t := main (s_rt s)) in *.
+    apply wp_bind. apply frame_use; [apply frame_tick_hash| |]; [|intros s1 Hs1; apply HU; [rewrite Hs1; reflexivity|rewrite Hs1; exact Hok|auto]].
+    intros [] s1 Hs1. apply wp_bind. apply frame_use; [apply frame_cb| |]; [|intros s2 Hs2; apply HU; [rewrite Hs2, Hs1; reflexivity|rewrite Hs2, Hs1; exact Hok|auto]].
+    intros [] s2 Hs2. apply wp_bind. apply wp_on_unwind. eapply frameU_use; [apply frame_cb| |].
+    2:{ intros p s3 Hs3 ->. apply frame0_use; [apply frame0_tick|]. intros [] s4 Hs4.
+        apply HU; [rewrite Hs4, Hs3, Hs2, Hs1; reflexivity|rewrite Hs4, Hs3, Hs2, Hs1; exact Hok|auto]. }
+    intros [] s3 Hs3. apply wp_bind.
+    assert (Hrt3 : s_rt s3 = s_rt s) by congruence.
+    apply hb_insert_spec; [exact Hok|apply Hdis; left| |].
+    + intros t1 s4 Hs4 Hok1 Hel1 Hn1 Hcase. apply wp_bind. unfold setm. apply wp_modify. cbn [set_rt s_rt].
+      apply IH; cbn [set_rt s_rt main lo]; [exact Hok1|exact Hnd| | |].
+      * intros x Hx. rewrite Hel1. rewrite lookup_insert_ne; [apply Hdis; right; exact Hx|].
+        intros Heq. apply Hne. rewrite Heq. apply elem_of_list_fmap. exists x. auto.
+      * intros s5 Hlo5 Hok5 Hel5. apply HQ; [rewrite Hlo5, Hs4, Hrt3; reflexivity|exact Hok5|].
+        rewrite Hel5, Hel1, list_to_emap_cons. rewrite <- insert_union_l.
+        rewrite <- insert_union_r by (apply Hdis; left). reflexivity.
+      * intros p s5 Hlo5 Hok5 Hp. apply HU; [rewrite Hlo5, Hs4, Hrt3; reflexivity|exact Hok5|exact Hp].
+    + intros p s4 Hs4 Hp. apply HU; [rewrite Hs4, Hrt3; reflexivity|rewrite Hs4, Hrt3; exact Hok|exact Hp].
 Qed.
 
 Lemma cursor_view_spec o (Q : list elem -> st -> Prop) (U : panic -> st -> Prop) s :
@@ -107,14 +160,18 @@ Qed.
    it is empty (the fix): afterwards it holds exactly the source's elements *)
 Lemma hb_clone_from_spec t sm (Q : hb -> st -> Prop) (U : panic -> st -> Prop) s :
   hb_ok ES t -> hb_ok ES sm -> (hn t = 0 -> hgl t = bcap (hB t)) ->
-  (forall t' s', s_rt s' = s_rt s -> hb_ok ES t' -> hel t' = hel sm -> hn t' = hn sm ->
+  (forall t' tm s', s_rt s' = RT tm (lo (s_rt s)) -> hb_ok ES t' -> hel t' = hel sm -> hn t' = hn sm ->
                  (* enough room for whatever had room in the source *)
                  hgl sm <= hgl t' \/ hB t' = hB t -> Q t' s') ->
-  (forall s', s_rt s' = s_rt s -> U PUser s') ->
+  (* interrupted: the destination is an empty (or the untouched) table *)
+  (forall tm s', s_rt s' = RT tm (lo (s_rt s)) -> hb_ok ES tm -> U PUser s') ->
+  main (s_rt s) = t ->
   wp (hb_clone_from_with_hasher t sm) Q U s.
 Proof.
-  intros Hok Hoks Hfresh HQ HU. unfold hb_clone_from_with_hasher.
+  intros Hok Hoks Hfresh HQ HU Hmain. unfold hb_clone_from_with_hasher.
   pose proof Hok as (Hcap & Hn & Hkey & HB0 & HB1). pose proof Hoks as (Hcaps & Hns & Hkeys & HBs).
+  assert (Hrt : forall s', s_rt s' = s_rt s -> s_rt s' = RT t (lo (s_rt s))).
+  { intros s' ->. destruct (s_rt s) as [m o]. cbn in *. congruence. }
   destruct (negb (hB t =? hB sm) && (hlen sm <=? bcap (hB t))) eqn:Epath.
   - (* clear and re-insert: same buckets as before, no tombstones *)
     apply andb_prop in Epath as [_ Efit]. apply N.leb_le in Efit. unfold hlen in Efit.
@@ -122,28 +179,36 @@ Proof.
     intros t1 s1 Hs1 Hok1 Hel1 Hn1 HB1' Hgl1 Hcase.
     assert (Hgl1' : hgl t1 = bcap (hB t)).
     { destruct Hcase as [->|Hc]; [apply Hfresh; exact Hn1|exact Hc]. }
+    wp_steps. cbn [set_rt s_rt]. rewrite Hs1.
+    set (s1' := set_rt (RT t1 (lo (s_rt s))) s1).
+    assert (Hs1' : s_rt s1' = RT t1 (lo (s_rt s))) by reflexivity.
+    apply wp_bind. apply frame0_use; [apply (frame0_take_order_or (hel sm))|]. intros els s1'' Hs1''.
     apply wp_bind.
     eapply frameU_use; [apply (frameU_iterM (fun p => p = PUser))| |].
     + intros e. apply frameU_bind; [apply frame_cb|]. intros _.
       apply frameU_bind; [apply frameU_on_unwind; [apply frame_cb|apply frame0_tick]|]. intros _.
       apply frameU_on_unwind; [apply frame_tick_hash|apply frame0_drop_elem].
     + intros [] s2 Hs2. destruct (N.ltb_spec (hgl t1) (hlen sm)) as [Hlt|Hge]; [unfold hlen in Hlt; lia|].
-      apply wp_ret. apply HQ; [congruence| |reflexivity|reflexivity|right; exact HB1'].
+      apply wp_ret. apply (HQ _ t1); [congruence| |reflexivity|reflexivity|right; exact HB1'].
       split; [hl; rewrite HB1'; lia|]. split; [exact Hns|]. split; [exact Hkeys|]. cbn [hB]. rewrite HB1'. split; assumption.
-    + intros p s2 Hs2 ->. apply HU. congruence.
+    + intros p s2 Hs2 ->. apply (HU t1); [congruence|exact Hok1].
   - (* copy: same buckets and control bytes as the source *)
     destruct (N.eqb_spec (hB sm) 1) as [Hs1|Hs1].
     + apply wp_bind. apply frame0_use; [apply frame0_drop_elems|]. intros [] s1 Hs1'.
       apply wp_bind. apply frame0_use; [apply frame0_hb_free|]. intros [] s2 Hs2. apply wp_ret.
       assert (Hz : hn sm = 0 /\ hgl sm = 0) by (rewrite Hs1 in Hcaps; change (bcap 1) with 0 in Hcaps; lia).
       destruct Hz as [Hz1 Hz2]. assert (Hem : hel sm = ∅) by (apply map_size_empty_inv; lia).
-      apply HQ; [congruence|apply hb_ok_new|cbn; congruence|cbn; congruence|left; cbn; lia].
+      apply (HQ _ t); [apply Hrt; congruence|apply hb_ok_new|cbn; congruence|cbn; congruence|left; cbn; lia].
     + apply wp_bind. apply frame0_use; [apply frame0_drop_elems|]. intros [] s1 Hs1'.
       apply wp_bind. apply frame0_use.
       { apply frameU_when. apply frameU_bind; [apply frame0_tick|intros _; apply frame0_hb_free]. }
-      intros [] s2 Hs2. apply wp_bind. eapply frameU_use; [apply frame_clone_elems| |].
-      * intros l' s3 Hs3. apply wp_ret. apply HQ; [congruence|exact Hoks|reflexivity|reflexivity|left; lia].
-      * intros p s3 Hs3 ->. apply HU. congruence.
+      intros [] s2 Hs2. apply wp_bind. apply frame0_use; [apply (frame0_take_order_or (hel sm))|]. intros els s2' Hs2'.
+      apply wp_bind. apply wp_on_unwind. eapply frameU_use; [apply frame_clone_elems| |].
+      * intros l' s3 Hs3. apply wp_ret. apply (HQ _ t); [apply Hrt; congruence|exact Hoks|reflexivity|reflexivity|left; lia].
+      * intros p s3 Hs3 ->. unfold setm, modify, wp. cbn.
+        apply (HU (hb_empty (hB sm))).
+        -- cbn [set_rt s_rt]. f_equal. rewrite Hs3, Hs2', Hs2, Hs1'. reflexivity.
+        -- destruct HBs as [HBs0 HBs1]. apply hb_ok_empty; assumption.
 Qed.
 
 Lemma Inv_no_old r : Inv R ES r -> Inv R ES (RT (main r) None).
@@ -168,24 +233,24 @@ Proof.
     - split; [exact Hok|]. intros Hc. contradiction. }
   destruct Hok0 as [Hok0 Hfresh0].
   assert (HI2 : Inv R ES (RT t0 None)) by (split; [exact HR|split; [exact Hok0|exact I]]).
-  apply hb_clone_from_spec; [exact Hok0|exact Hoks|exact Hfresh0| |].
-  2:{ intros s3 Hs3. cbn [set_rt s_rt lo] in Hs3. apply HU; [rewrite Hs3; exact HI2|auto]. }
-  intros t1 s3 Hs3 Hok1 Hel1 Hn1 _. cbn [set_rt s_rt lo] in Hs3. wp_steps. cbn [set_rt s_rt]. rewrite Hs3. cbn [lo].
+  apply hb_clone_from_spec; [exact Hok0|exact Hoks|exact Hfresh0| | |reflexivity].
+  2:{ intros tm s3 Hs3 Hokm. cbn [set_rt s_rt lo] in Hs3. apply HU; [rewrite Hs3; split; [exact HR|split; [exact Hokm|exact I]]|auto]. }
+  intros t1 tm s3 Hs3 Hok1 Hel1 Hn1 _. cbn [set_rt s_rt lo] in Hs3. wp_steps. cbn [set_rt s_rt]. rewrite Hs3. cbn [lo].
   set (s4 := set_rt (RT t1 None) s3).
   assert (HI4 : Inv R ES (s_rt s4)) by (unfold s4; cbn [set_rt s_rt]; split; [exact HR|split; [exact Hok1|exact I]]).
   apply cursor_view_spec.
   { intros oo Hoo. rewrite Hoo in Hos. destruct Hos as (H1 & H2 & _). unfold olen in H1. auto. }
-  apply wp_bind.
   set (lold := match lo src with Some oo => orem oo | None => [] end).
   assert (Hold : NoDup (map ek lold) /\ (forall e, e ∈ lold -> hel (main src) !! ek e = None)).
   { unfold lold. destruct (lo src) as [o|]; [destruct Hos as (_ & _ & H1 & H2 & _); auto|]. split; [constructor|]. intros e He. inversion He. }
   destruct Hold as [Hnd Hdis].
-  apply and_carry_spec; [exact Hok1|exact Hnd|intros e He; rewrite Hel1; apply Hdis; exact He| |].
-  - intros t' s5 Hs5 Hok' Hel' _. wp_steps. apply HQ; cbn [set_rt s_rt]; rewrite Hs5; unfold s4; cbn [set_rt s_rt main lo].
-    + split; [exact HR|]. split; [exact Hok'|exact I].
-    + unfold rt_abs. cbn [main lo]. rewrite Hel', Hel1, (right_id_L ∅ (∪)). unfold lold. destruct (lo src); reflexivity.
+  apply and_carry_here_spec; [exact Hok1|exact Hnd|intros e He; unfold s4; cbn [set_rt s_rt main]; rewrite Hel1; apply Hdis; exact He| |]; unfold s4; cbn [set_rt s_rt main lo].
+  - intros s5 Hlo5 Hok5 Hel5. destruct (s_rt s5) as [m5 o5] eqn:E5. cbn [main lo] in *. subst o5. apply HQ; rewrite E5.
+    + split; [exact HR|]. split; [exact Hok5|exact I].
+    + unfold rt_abs. cbn [main lo]. rewrite Hel5, Hel1, (right_id_L ∅ (∪)). unfold lold. destruct (lo src); reflexivity.
     + reflexivity.
-  - intros p s5 Hs5 Hp. apply HU; [rewrite Hs5; exact HI4|exact Hp].
+  - intros p s5 Hlo5 Hok5 Hp. destruct (s_rt s5) as [m5 o5] eqn:E5. cbn [main lo] in *. subst o5.
+    apply HU; [rewrite E5; split; [exact HR|split; [exact Hok5|exact I]]|exact Hp].
 Qed.
 
 (* ------------------------------------------------------------------ == *)
